@@ -463,6 +463,7 @@ class AsmWriter:
             # instruction
             if lines or rows:
                 if rows:
+                    self.pc = instruction.address
                     self.print_instruction_prefix(instruction, i)
                     operation = instruction.operation
                     rows -= 1
@@ -484,14 +485,14 @@ class AsmWriter:
                 oline = self.format_template('instruction', subs).rstrip()
                 self.format_warn('Comment at {1} contains address ({0}) not converted to a label:\n{2}',
                                  'Comment at {1} contains addresses ({0}) not converted to labels:\n{2}',
-                                 self.find_unconverted_addresses(subs['text'], ignoreua), self.pc, oline)
+                                 self.find_unconverted_addresses(subs['text'], ignoreua), comment_pc, oline)
                 self.write_line(oline)
                 if len(oline) > self.line_width:
                     self.warn('Line is {0} characters long:\n{1}'.format(len(oline), oline))
                 continue
 
             ignoreua = instruction.ignoreua['i']
-            self.pc = instruction.address
+            self.pc = comment_pc = instruction.address
 
             rowspan = rows = instruction.comment.rowspan
             instr_width = max([len(i.operation) for i in instructions[i:i + rowspan]] + [self.instr_width])
